@@ -1,6 +1,6 @@
 """C36 -- flow files round-trip every flow type; reading arbitrary bytes fails only with FlowReadException.
 
-Two kinds of case (1 in 8 is a round-trip case, the rest are hostile-bytes cases):
+Three kinds of case (1 in 8 is a round-trip case, 1 in 8 a writer history with failed saves, the rest are hostile-bytes cases):
 
 (a) round trip (metamorphic + differential): a sequence of 1-20 generated flows of mixed type (vf/gen/flows.py: every
     serialised field randomised) is written with the real FlowWriter / FilteredFlowWriter (BytesIO or a real file) and read
@@ -14,6 +14,15 @@ Two kinds of case (1 in 8 is a round-trip case, the rest are hostile-bytes cases
       reader_accepts_ref_encoding tnetstring.loads(ref.encode(state)) == state (the reader agrees with the reference encoder)
       reserialise_same_states    writing the loaded flows again yields a file carrying the same states (dict order may differ)
     States are compared type-strictly after mapping tuples to lists (the format has a single sequence type); NaN == NaN.
+(c) writer history with faults: 3-8 save attempts in one process on one or two writers/files (FlowWriter, FilteredFlowWriter,
+    BytesIO or real file, sometimes a fresh writer object on the same file); some of the flows cannot be serialised (a live
+    object / set / complex number in metadata at various depths, lone-surrogate text in comment / metadata / error message,
+    metadata nested thousands deep).  Monitors:
+      failed_save_leaves_file_unchanged   a save of such a flow raises and the file's bytes are unchanged (no other file changes)
+      save_appends_exactly_one_record     every successful save appends exactly one well-formed record that decodes (reference
+                                          codec) to the flow's state -- in particular the saves AFTER a failed one (save_after_failed_save)
+      history_file_reads_back             at the end every file reads back (real FlowReader) to exactly the successfully saved
+                                          flows, in order
 (b) hostile bytes: byte/bit/length-prefix/type-tag mutations of valid files, structurally valid records that are not flow
     states (keys removed, values of the wrong type, unknown `type`, old/unknown/odd `version`, bytes keys), non-dict records,
     nestings of depth 10..5000, HAR look-alikes, random bytes; read through BytesIO or a BufferedReader.  Monitor:
@@ -48,7 +57,8 @@ PROPERTY = "C36"
 LEVEL = "exploration"
 BUDGET = {"quick": (30_000, 16), "thorough": (3_000_000, 180)}
 WORKERS = {"quick": 2, "thorough": 16}
-REQUIRED = ["roundtrip_state", "roundtrip_attributes", "ref_decode_of_written_file", "reader_accepts_ref_encoding", "reserialise_same_states", "read_only_flowreadexception"]
+REQUIRED = ["roundtrip_state", "roundtrip_attributes", "ref_decode_of_written_file", "reader_accepts_ref_encoding", "reserialise_same_states", "read_only_flowreadexception",
+            "failed_save_leaves_file_unchanged", "save_after_failed_save", "history_file_reads_back"]
 ENGINE = "direct"
 TECHNIQUE = "round-trip + reference-codec differential; totality of the reader on mutated files under a step budget"
 RULE = (
@@ -57,7 +67,8 @@ RULE = (
     "union of optional-field features, writer/reader variant). Other cases: one hostile byte string derived from a valid file of the worker's pool "
     "(or built from scratch); signature = (mutation family, reader variant, outcome: flows accepted / site of the error that became "
     "FlowReadException / escaping exception). Non-trivial: round-trip cases with at least one flow; hostile cases whose bytes differ from "
-    "the valid base file"
+    "the valid base file. Every 8th case (offset 4): a writer history of 3-8 saves on 1-2 writers where ~40% of the flows are unserialisable "
+    "(8 fault kinds); signature = (set of fault kinds, writer variants, number of successful saves after a failed one)"
 )
 ASSUMPTIONS = [
     "str values contain no lone surrogates (not encodable as UTF-8, cannot be produced by decoding network data with the codecs mitmproxy uses)",
@@ -211,6 +222,163 @@ def case_roundtrip(ctx, tmpdir):
             except T.RefError as e:
                 ctx.violation("second-generation-file-not-wellformed", {"err": str(e)})
     ctx.case(sig, True, sample)
+
+
+# --------------------------------------------------------------------------------------------- (c) writer histories with failed saves
+
+class _Opaque:
+    """A live object an addon might park in flow.metadata; not part of the file format."""
+
+    def __repr__(self):
+        return "<opaque>"
+
+
+def make_unserialisable(r, f):
+    """Turn a generated flow into one the documented format cannot carry. -> name of the fault."""
+    fault = r.choice(["metadata-object", "metadata-object", "metadata-set", "metadata-nested-object", "surrogate-comment", "surrogate-metadata", "deep-metadata", "surrogate-error-msg"])
+    if fault == "metadata-object":
+        f.metadata[r.choice(["addon_state", "k", "zz"])] = _Opaque()
+    elif fault == "metadata-set":
+        f.metadata["seen"] = {1, 2, 3}
+    elif fault == "metadata-nested-object":
+        f.metadata["nested"] = {"a": [1, b"x", {"deep": [complex(1, 2)]}], "b": "tail"}
+    elif fault == "surrogate-comment":
+        f.comment = "caf\udce9 " + r.choice(["", "x" * 50])
+    elif fault == "surrogate-metadata":
+        f.metadata["name"] = ["ok", "bad \ud800 text"]
+    elif fault == "surrogate-error-msg":
+        from mitmproxy import flow as _fl
+
+        f.error = _fl.Error("connection reset \udcff", 946681207.0)
+    else:
+        v = []
+        for _ in range(r.choice([1500, 3000])):
+            v = [v]
+        f.metadata["deep"] = v
+    return fault
+
+
+class _Target:
+    """One file (BytesIO or a real file) with the writer object that appends to it."""
+
+    def __init__(self, variant, tmpdir, name):
+        self.variant = variant
+        self.path = None
+        if variant == "file":
+            self.path = os.path.join(tmpdir, name)
+            self.fo = open(self.path, "wb")
+        else:
+            self.fo = io.BytesIO()
+        self.writer = FilteredFlowWriter(self.fo, None) if variant == "filtered" else FlowWriter(self.fo)
+        self.states = []  # states of the successfully saved flows, in order
+        self.kinds = []
+
+    def content(self):
+        if self.path:
+            self.fo.flush()
+            with open(self.path, "rb") as fh:
+                return fh.read()
+        return self.fo.getvalue()
+
+    def close(self):
+        if self.path:
+            self.fo.close()
+
+
+def case_fault_history(ctx, tmpdir):
+    """Saves that fail part-way through serialisation interleaved with saves that succeed, on one or two writers."""
+    r = ctx.rng
+    variants = [r.choice(["bytesio", "filtered", "file"]) for _ in range(r.choice([1, 1, 2]))]
+    targets = [_Target(v, tmpdir, f"hist{k}.mitm") for k, v in enumerate(variants)]
+    hist = []
+    faults = set()
+    n_ok_after_fail = 0
+    failed_before = False
+    try:
+        nsteps = r.randint(3, 8)
+        plan = [r.random() < 0.4 for _ in range(nsteps)]
+        if not any(plan):
+            plan[r.randrange(nsteps - 1)] = True
+        plan[-1] = False  # always end with a save that should succeed
+        for bad in plan:
+            t = r.choice(targets)
+            if r.random() < 0.15:
+                # a fresh writer object on the same file (e.g. a second save.file with "+path")
+                t.writer = FilteredFlowWriter(t.fo, None) if t.variant == "filtered" else FlowWriter(t.fo)
+            f = G.gen_flow(r, None, size="small")
+            before = t.content()
+            others = [(o, o.content()) for o in targets if o is not t]
+            if bad:
+                fault = make_unserialisable(r, f)
+                faults.add(fault)
+                hist.append(f"{t.variant}{targets.index(t)}:FAIL({fault})")
+                ctx.count("failed_save_leaves_file_unchanged")
+                raised = None
+                try:
+                    t.writer.add(f)
+                except (Exception, RecursionError) as e:  # noqa
+                    raised = e
+                after = t.content()
+                if raised is None:
+                    ctx.violation("unserialisable-flow-saved-without-error", {"history": hist, "fault": fault, "appended": after[len(before):][:200]})
+                if after != before:
+                    ctx.violation("failed-save-changed-file", {"history": hist, "fault": fault, "exc": short(repr(raised), 200), "len_before": len(before), "len_after": len(after), "appended": after[len(before):][:300]})
+                failed_before = True
+            else:
+                st = T.norm(copy.deepcopy(f.get_state()))
+                hist.append(f"{t.variant}{targets.index(t)}:save({G.kind_of(f)})")
+                try:
+                    t.writer.add(f)
+                except Exception as e:
+                    ctx.violation("write-raises", {"history": hist, "exc": repr(e), "site": exc_site(e)})
+                    continue
+                t.states.append(st)
+                t.kinds.append(G.kind_of(f))
+                after = t.content()
+                ctx.count("save_appends_exactly_one_record")
+                if failed_before:
+                    n_ok_after_fail += 1
+                    ctx.count("save_after_failed_save")
+                problem = None
+                if not after.startswith(before):
+                    problem = "existing bytes changed"
+                else:
+                    tail = after[len(before):]
+                    try:
+                        dec = T.decode_all(tail)
+                        if len(dec) != 1:
+                            problem = f"{len(dec)} records appended"
+                        elif not T.same(st, T.norm(dec[0])):
+                            problem = "appended record differs from the flow's state: " + str(T.diff(st, T.norm(dec[0])))
+                    except T.RefError as e:
+                        problem = f"appended bytes are not one well-formed record: {e}"
+                if problem:
+                    ctx.violation("save-did-not-append-exactly-the-flow", {"history": hist, "problem": problem, "after_failed_save": failed_before, "tail_head": after[len(before):][:200], "tail_end": after[-200:]})
+            for o, ob in others:
+                if o.content() != ob:
+                    ctx.violation("save-changed-another-file", {"history": hist})
+        # every file reads back to exactly the successfully saved flows, in order
+        for k, t in enumerate(targets):
+            data = t.content()
+            ctx.count("history_file_reads_back")
+            try:
+                loaded = read_flows(data, r.choice(["bytesio", "buffered", "file"]), tmpdir)
+            except Exception as e:
+                ctx.violation("read-of-written-history-raises", {"history": hist, "file": k, "exc": short(repr(e)), "saved": len(t.states)})
+                continue
+            if len(loaded) != len(t.states):
+                ctx.violation("history-flow-count-differs", {"history": hist, "file": k, "saved": len(t.states), "loaded": len(loaded)})
+                continue
+            for i, (a, g) in enumerate(zip(t.states, loaded)):
+                b = T.norm(g.get_state())
+                if not T.same(a, b):
+                    ctx.violation("history-state-differs-after-load", {"history": hist, "file": k, "flow": i, "kind": t.kinds[i], "diff": T.diff(a, b)}, classify_roundtrip(a, b))
+                    break
+    finally:
+        for t in targets:
+            t.close()
+    sig = ("faults", tuple(sorted(faults)), tuple(sorted(variants)), min(n_ok_after_fail, 3))
+    ctx.case(sig, True, {"case": "fault-history", "history": hist})
 
 
 # --------------------------------------------------------------------------------------------- (b) hostile bytes
@@ -554,6 +722,8 @@ def run(ctx):
         for i in ctx.cases():
             if i % 8 == 0:
                 case_roundtrip(ctx, tmpdir)
+            elif i % 8 == 4:
+                case_fault_history(ctx, tmpdir)
             else:
                 case_hostile(ctx, pool)
     finally:
